@@ -445,7 +445,7 @@ def jobs(tier):
         if tier == "thorough" or cfg["fk"] in (None, 1):
             js.append(Job(cfg["name"] + "/InverseRTransform", job_class, cfg, inverse_wrap=True))
         js.append(Job(cfg["name"] + "/end-points", job_endpoints, cfg, True))
-        if tier == "thorough" and cfg["cls"] in ("BeckeRTransform", "MultiExpRTransform", "KnowlesRTransform", "HandyRTransform", "HandyModRTransform"):
+        if (tier == "thorough" or cfg["fk"] in (None, 2)) and cfg["cls"] in ("BeckeRTransform", "MultiExpRTransform", "KnowlesRTransform", "HandyRTransform", "HandyModRTransform"):
             js.append(Job(cfg["name"] + "/end-points/no-trim", job_endpoints, cfg, False))
         if cfg["fk"] in (None, 2):
             js.append(Job(cfg["name"] + "/history", job_history, cfg))
